@@ -652,6 +652,11 @@ class Evaluator:
         if k in ("pts", "pstruct"):
             seg = hir.last_seg(hir.pat_path(p))
             sub = p["pats"][0] if k == "pts" and p["pats"] else (p["fields"][0]["p"] if k == "pstruct" and p["fields"] else None)
+            if seg in ("Some", "None") and v[0] not in ("some", "none"):
+                # an Option whose variant is not known cannot be matched (answering "no match" would silently take the other arm)
+                raise Unrecognised(f"pattern {seg} against a value that is not known to be Some or None ({str(v)[:40]})")
+            if seg in ("Ok", "Err") and v[0] not in ("ok", "err"):
+                raise Unrecognised(f"pattern {seg} against a value that is not known to be Ok or Err ({str(v)[:40]})")
             if seg == "Some":
                 return v[0] == "some" and (sub is None or self.bind(sub, v[1], env))
             if seg == "None":
@@ -680,7 +685,11 @@ class Evaluator:
         if k == "ppath":
             path = p["path"]
             if path.endswith("Option::None"):
+                if v[0] not in ("some", "none"):
+                    raise Unrecognised(f"pattern None against a value that is not known to be Some or None ({str(v)[:40]})")
                 return v[0] == "none"
+            if v[0] in ("sym", "app", "bin", "not"):
+                raise Unrecognised(f"pattern {path.split('::')[-1]} against an unknown value ({str(v)[:40]})")
             if v[0] in ("int", "str", "bool"):
                 # a constant used as a pattern (`MAX => ..`): compared by value
                 cv = self.consts.get(path)
@@ -804,6 +813,26 @@ class Evaluator:
         return self.ev(node["body"], env2)
 
     def call(self, e, env):
+        cal0 = e.get("resolved") or e.get("callee") or ""
+        if self.concrete_strings and "fmt:sink" in self.atoms and len(e.get("args", [])) == 2 and \
+                cal0 in ("core::fmt::Formatter::<'a>::write_fmt", "core::fmt::Write::write_fmt", "std::io::Write::write_fmt"):
+            # `write!(f, "..{}..", x)`: the text it hands to the formatter, for plain `{}` of strings and integers
+            pieces, fargs = hir.fmt_template(e["args"][1])
+            text = ""
+            for pc in pieces:
+                if isinstance(pc, str):
+                    text += pc
+                    continue
+                if len(pc) != 3 or pc[2] != "new_display":
+                    raise Unrecognised(f"format placeholder {pc[2:]} is not a plain Display")
+                v = self.ev(fargs[pc[1]], env)
+                if v[0] == "str":
+                    text += v[1]
+                elif v[0] == "int":
+                    text += str(v[1])
+                else:
+                    raise Unrecognised(f"Display of {str(v)[:40]}")
+            return self.atoms["fmt:sink"]([self.ev(e["args"][0], env), ("str", text)])
         if e.get("ctor", "").endswith("Option::Some"):
             return ("some", self.ev(e["args"][0], env))
         if e.get("ctor", "").endswith("Result::Ok"):
@@ -964,6 +993,26 @@ class Evaluator:
             return {"map": ("array",), "find": ("none",), "position": ("none",), "all": ("bool", True), "any": ("bool", False)}[short]   # empty range
         if self.concrete_strings and short == "new" and not args and any(x in str(e.get("ty", "")) for x in ("VecDeque<", "Vec<")):
             return ("array",)
+        if args and args[0][0] == "rec" and cal.startswith("core::iter::traits::iterator::Iterator::") and \
+                short in ("enumerate", "zip", "take", "skip", "rev", "filter", "map", "count", "last", "copied", "cloned", "chain", "collect"):
+            # an adaptor over a value whose own `Iterator::next` is a function of an inlinable crate: its items first
+            ty0 = str(hir.simp(e["args"][0]).get("ty", ""))
+            nxt = self._find_impl(ty0, "core::iter::traits::iterator::Iterator>::next") if ty0 else None
+            if nxt:
+                it_, out_ = args[0], []
+                for _ in range(LOOP_BOUND):
+                    fin_ = []
+                    r_ = self.call_fn(nxt[0], nxt[1], [it_], final=fin_)
+                    if fin_ and fin_[0] is not None:
+                        it_ = fin_[0]
+                    if r_[0] == "none":
+                        break
+                    if r_[0] != "some":
+                        raise Unrecognised(f"iterator yields {str(r_)[:40]}")
+                    out_.append(r_[1])
+                else:
+                    raise Unrecognised("iterator does not finish within the bound")
+                args = [("array",) + tuple(out_)] + list(args[1:])
         if args and args[0][0] == "array" and cal.startswith(("core::iter::", "core::slice::", "<core::slice::", "<[", "core::array::", "<core::array::", "alloc::vec::", "<alloc::vec::")):
             # pure adaptors over a known sequence
             seq = args[0]
